@@ -51,6 +51,14 @@ def plan(tier):
     patA = int("a5" * 32, 16) % N
     patB = int("5a" * 32, 16) % N
     scal = [1, nm1 - 1, patA, patB, (1 << 255) % N, int("00" * 8 + "ff" * 24, 16), int("ff" * 4 + "00" * 28, 16) % N]
+    if not q:
+        # thorough: single bits at the comb-window positions, scalars with one window / nibble / byte zero, seeded random
+        import random as _r
+        rr = _r.Random(1000 + core.seed())
+        scal += [1 << k for k in (17, 59, 101, 143, 185, 227, 252, 255)]
+        scal += [patA & ~(0x3f << k) for k in (4, 46, 130, 250)] + [patB & ~(0xff << (8 * k)) for k in (0, 15, 31)]
+        scal += [int("0" + "f" * 63, 16), int("00" + "a5" * 31, 16)]
+        scal += [rr.randrange(1, N - 1) for _ in range(12)]
     jobs = [
         # comparison of a secret string with n-1: all "less" (same verdict), then across verdicts
         ("cmp", "same", hx(nm1), [hx(1), hx(patA), hx(nm1 - 1), hx(int("ff" * 3 + "00" * 29, 16))], 6000),
@@ -58,7 +66,7 @@ def plan(tier):
         ("testpriv", "same", None, [hx(1), hx(patA), hx(nm1 - 1), hx(1 << 200)], 6000),
         ("testpriv", "verdict", None, [hx(5), hx(0), hx(nm1), hx(T256 - 1)], 6000),
         ("extract", "same", None, [hx(0), hx(T256 - 1), hx(patA), hx(patB)], 6000),
-        ("select", "same", None, ["%02x" % v for v in (0, 1, 2, 31, 62, 63)], 20000),
+        ("select", "same", None, ["%02x" % v for v in ((0, 1, 2, 31, 62, 63) if q else range(64))], 20000),
         ("nsetbytes", "same", None, [hx(1), hx(patA), hx(int("ff" * 3 + "00" * 29, 16)), hx(int("fffffffe" + "ff" * 12 + "00" * 16, 16)),
                                      hx(nm1 - 1)], 8000),
         ("psetbytes", "same", None, [hx(1), hx(patA), hx(int("ff" * 3 + "00" * 29, 16)), hx(P - 2)], 8000),
@@ -72,7 +80,7 @@ def plan(tier):
     jobs.append(("signhashed", "verdict", pub, [hx(patA), hx(1), hx((1 << 240) + 5), hx(nm1 - 1), hx((1 << 200) - 2)]
                  if not q else [hx(patA), hx((1 << 240) + 5), hx(nm1 - 1)], 0))
     if not q:
-        jobs.append(("mult", "same", None, [hx(v) for v in scal[:4]] + [hx(0), hx(T256 - 1)], 0))
+        jobs.append(("mult", "same", None, [hx(v) for v in scal[:4] + scal[7:]] + [hx(0), hx(T256 - 1)], 0))
         jobs.append(("ptbytes", "same", None, [hx(v) for v in scal[:4]], 0))
     else:
         jobs.append(("mult", "same", None, [hx(scal[0]), hx(scal[2]), hx(0)], 0))
